@@ -3,7 +3,7 @@ import Hive.Proofs.SyncMutexDag
 import Hive.Proofs.SyncMutexWait
 import Hive.Gen.C17_Skel
 import Hive.Proofs.SyncMutexExec
-import Hive.Proofs.SyncMutexComp8
+import Hive.Proofs.SyncMutexComp9
 import Hive.Proofs.SyncMutexWaitV
 /-!
 # C17 — Starving/DAG mutexes: exclusion, no lost wake-up, condition waits
@@ -484,6 +484,21 @@ theorem C17_dag_misuse_panic_preserves_state (s : CSh) (t : CTh) :
         cases os <;> simp [Comp.step, hc, hla, startInner] at h
   · intro s' t' hm hne
     exact step_enters_unreg hm hne
+
+open Comp in
+/-- **No misuse can corrupt a mutex object** — the composed system under *arbitrary* scripts (any calls in any order on
+any entities, wrong-mode and unregistered unlocks included, any number of them panicking): in every reachable
+configuration every StarvingMutex object of the DAGMutex satisfies the script-independent monitor invariant `GInv` for
+the goroutines' views of it — `writer → readers = 0`, the internal mutex is held by exactly the goroutines inside a
+critical section of that object (a panicked one included), `pendingWriters` and both condition variables are accounted
+for, Φ_W and Φ_R (no lost wake-up) hold.  Together with `C17_dag_misuse_panic_preserves_state` (the registry is written
+only by the registering / unregistering sections): what a misused call leaves behind is a frozen entity at worst, never
+a lock state that grants two holders.  (`C17_dag_misuse_panic_wrong_mode_witness` is a reachable configuration after a
+misuse.) -/
+theorem C17_dag_composed_objects_any_scripts {scripts : List (List Dag.DOp)} {c : Cfg CSh CTh}
+    (hr : Reach Comp.sys (Comp.initCfg scripts) c) (o : Nat) :
+    ((c.1.heap o).writer = true → (c.1.heap o).readers = 0) ∧ GInv (c.1.heap o) (c.2.map (proj o)) :=
+  ⟨((gi_reach hr).obj o).excl, (gi_reach hr).obj o⟩
 
 /-- The sequences of the former known finding, on the model of the repaired code (evaluation of one schedule each, a
 witness, not a general claim; the harness replays the same calls on the real DAGMutex: `seq dagc rlock:1 runlock:1,2
